@@ -50,8 +50,8 @@ ASSUMPTIONS = [
     "Zeeman structures with an empty or all-zero polarisation list, MSE calls with n_e <= 0 or T_e <= 0 and Stark "
     "parameters within 1e-6 relative of a fit-branch switching point are outside the statement (counted as skipped)",
 ]
-QUICK = dict(cases=3600, workers=2, timecap=45)
-THOROUGH = dict(cases=360000, workers=16, timecap=600)
+QUICK = dict(cases=10000, workers=2, timecap=45)
+THOROUGH = dict(cases=600000, workers=16, timecap=600)
 REQUIRED = {"bins_gauss": 20000, "bins_stark": 5000, "total": 1500, "pol_sum": 10000, "zero_width": 60, "adds": 200}
 
 MODELS = ["GaussianLine", "MultipletLineShape", "ZeemanTriplet", "ParametrisedZeemanTriplet", "ZeemanMultiplet",
@@ -68,7 +68,7 @@ _APPROX_WEIGHT = dict(hydrogen=1.008, deuterium=2.014, tritium=3.016, helium=4.0
 EPS = 2.220446049250313e-16
 PHYS = 1e-7                 # relative agreement demanded of physical constants (positions of split components, widths)
 LOR_RTOL = 2e-4             # modified-Lorentzian parts: 20 x the documented GaussianQuadrature tolerance
-RESOLVED = 0.25             # Stark grids with delta <= RESOLVED x FWHM are "resolved" (>= 4 bins per FWHM)
+RESOLVED = 0.1              # Stark grids with delta <= RESOLVED x FWHM are "resolved" (>= 10 bins per FWHM)
 BRANCH_GUARD = 1e-6
 
 
@@ -754,7 +754,7 @@ def run_case(case, ctx):
                     "%s:lorentzian-bin-quadrature-unresolved" % model
                 what = ("samples differ from radiance x bin-average of the documented pseudo-Voigt profile "
                         "(band: Lorentzian truncated at +-50 FWHM ... un-truncated, 2e-4 relative)") if resolved else \
-                    ("bin width exceeds FWHM/4 and the default GaussianQuadrature does not resolve the modified "
+                    ("bin width exceeds FWHM/10 and the default GaussianQuadrature does not resolve the modified "
                      "Lorentzian: samples leave the [truncated, un-truncated] band by more than 2e-4")
                 tol = tol_bin + LOR_RTOL * lf + 1e-13 * rad / delta
                 _band_check(ctx, got[pol], g + lt, g + lf, tol, key, what, "bins_stark" if resolved else "bins_stark_coarse", **detail)
